@@ -52,6 +52,10 @@ pub fn traced_run<K: SimKey>(case: &Case, out: &mut Outcome, snap: bool) -> Trac
     let base = fresh_dir();
     let mut sim = new_sim(&base, case, 1);
     sim.snap_all = snap;
+    if let Mode::Crash { cuts: CutSel::Steps(steps), .. } | Mode::Power { cuts: CutSel::Steps(steps) } = &case.mode {
+        // explicit cut list: do not keep an image of every other boundary
+        sim.snap_steps = Some(steps.iter().copied().collect());
+    }
     interpose::install(sim);
     let wl = &case.workload;
     let mut w = World::<K>::new(&base, wl);
@@ -326,7 +330,13 @@ fn parse_like_store(rel: &str) -> Option<[u8; 32]> {
 fn run_crash<K: SimKey>(case: &Case, cuts: &CutSel, depth: u32, suffix_every: u32, verify: bool, power: bool) -> Outcome {
     let mut out = Outcome::default();
     let mut t = traced_run::<K>(case, &mut out, true);
-    let props: &[&str] = if power { &["C09"] } else { &["C03"] };
+    let props: &[&str] = if power {
+        &["C09"]
+    } else if case.property == "C19" {
+        &["C03", "C19"]
+    } else {
+        &["C03"]
+    };
     if let Some(f) = t.failure.take() {
         out.violation = Some(f);
     }
@@ -399,7 +409,7 @@ fn run_crash<K: SimKey>(case: &Case, cuts: &CutSel, depth: u32, suffix_every: u3
             if suffix_every > 0 && judged % suffix_every == 0 {
                 out.counters.usability_suffixes += 1;
                 interpose::install(sim);
-                f2 = usability_suffix(&mut world, &mut rng, &tag).err();
+                f2 = usability_suffix(&mut world, &mut rng, &tag, &case.property).err();
                 world.readers.clear();
                 world.close();
                 sim = interpose::uninstall().expect("sim");
@@ -453,11 +463,16 @@ fn run_crash<K: SimKey>(case: &Case, cuts: &CutSel, depth: u32, suffix_every: u3
 
 /// after a recovery: clean up orphans, then a few operations, a checkpoint, a clean reopen, all
 /// under the fault-free oracles (the model has adopted the recovered state)
-fn usability_suffix<K: SimKey>(w: &mut World<K>, rng: &mut Rng, tag: &str) -> Result<(), Failure> {
+fn usability_suffix<K: SimKey>(w: &mut World<K>, rng: &mut Rng, tag: &str, own: &str) -> Result<(), Failure> {
     let wrap = |mut f: Failure| {
         f.message = format!("{tag}: recovered store not usable: {}", f.message);
         if !f.props.iter().any(|p| p == "C03") {
             f.props.push("C03".into());
+        }
+        // C19 runs this mode for "the remembered pre-creation choice does not change behaviour
+        // observably" (a crash inside first-time initialisation included)
+        if own == "C19" && !f.props.iter().any(|p| p == "C19") {
+            f.props.push("C19".into());
         }
         f
     };
